@@ -7,8 +7,11 @@ Real classes (every Message subclass, by introspection):
    str, list, dict) through the constructor (= from_dict / from_json path) and from_urlencoded;
  * truth tables of the cross-parameter rules of oidc.AuthorizationRequest (also run through the model),
    RegistrationRequest / RegistrationResponse and IdToken;
- * embedded signed objects (id_token, request, logout_token): valid, tampered, wrong key, alg none.
-Correspondence: Model/Msg.v generic_verify, construct (add_value) and authz_verify by vm_compute.
+ * embedded signed objects (id_token, request, logout_token): valid, tampered, wrong key, alg none;
+ * request objects: every class that declares a `request` parameter x complete / incomplete outer request x
+   validly signed complete / incomplete object (the message as it stands after the merge) + forgeries.
+Correspondence: Model/Msg.v generic_verify, construct (add_value), authz_verify and jar_verify / par_verify
+(oauth2 JWTSecuredAuthorizationRequest / PushedAuthorizationRequest, signature symbolic) by vm_compute.
 Oracle (from the property text, reads the schema off the class, never calls the model).
 """
 import copy
@@ -26,8 +29,12 @@ RULE = ("every Message subclass (introspection): base message of its required pa
         "against Message.verify and the class's verify(); typed-slot matrix = every declared parameter x 14 foreign "
         "values of every JSON type via constructor and from_urlencoded; full truth table (810 rows) of the "
         "oidc.AuthorizationRequest rules, tables for RegistrationRequest/Response and IdToken; signed-object "
-        "matrix (valid / tampered / wrong key / alg none) for id_token, request, logout_token. A case is one "
-        "(class, parameter, fault) cell; non-trivial when the class accepted the unfaulted message")
+        "matrix (valid / tampered / wrong key / alg none) for id_token, request, logout_token; request-object matrix "
+        "for every class declaring a `request` parameter: outer request {complete, each required parameter removed, "
+        "only client_id} x validly signed object {complete, each required parameter omitted, only optional, none of "
+        "the required} + no object / request_uri + the forgeries of a complete object, judged on the message as it "
+        "stands after verify(). A case is one (class, parameter, fault) cell; non-trivial when the class accepted "
+        "the unfaulted message")
 ASSUMPTIONS = ["cryptojwt JWS verification is correct (exercised: tampered and foreign-key tokens)",
                "JSON floats are outside the Gallina value universe: the float row of the type matrix is oracle-only"]
 
@@ -66,7 +73,7 @@ class Run:
         self.rng = ctx.rng
         self.classes = C.discover()
         self.byname = dict(self.classes)
-        self.cases = {"verify": [], "construct": [], "authz": [], "rules": []}
+        self.cases = {"verify": [], "construct": [], "authz": [], "rules": [], "request": []}
         self.kj = build_keyjar([{"type": "RSA", "use": ["sig"]}, {"type": "EC", "crv": "P-256", "use": ["sig"]}])
         self.kj.import_jwks(self.kj.export_jwks(private=True), "https://op.example")
         self.kj.import_jwks(self.kj.export_jwks(private=True), "c")
@@ -74,11 +81,24 @@ class Run:
         self.accepting = set()
 
     # ------------------------------------------------------------ the schema oracle
+    # the verify() functions of known finding accepted:required-missing (generic check BEFORE the merge)
+    MERGE_AFTER_CHECK = ("idpyoidc.message.oauth2.AuthorizationRequest.verify", "idpyoidc.message.oidc.AuthorizationRequest.verify")
+
+    def merged_key(self, cls):
+        """signature key for `a required parameter is absent after the request-object merge`: the recorded
+        finding for exactly the classes that run oauth2 / oidc AuthorizationRequest.verify, a key of its
+        own (named after the class) for every other class"""
+        vf = getattr(cls, "verify")
+        vname = "%s.%s" % (getattr(vf, "__module__", "?"), getattr(vf, "__qualname__", "?"))
+        return "accepted:required-missing" if vname in self.MERGE_AFTER_CHECK else "accepted:required-missing:" + cls.__name__
+
     def schema_oracle(self, name, cls, m, rec, how, merged=False):
         """the property text, read off the class: called when verify() accepted `m`.
         Signature keys: a required parameter deleted by the request-object merge is
-        accepted:required-missing, a required list holding only "" is accepted:required-empty (both
-        known findings); every other acceptance of a missing / blank / not-allowed value has its own key."""
+        accepted:required-missing (known finding, oauth2 / oidc AuthorizationRequest.verify only; any other
+        class: accepted:required-missing:<class>), a required list holding only "" is
+        accepted:required-empty (known finding); every other acceptance of a missing / blank / not-allowed
+        value has its own key."""
         d = m._dict
         for k, ent in cls.c_param.items():
             if k == "*":
@@ -86,7 +106,7 @@ class Run:
             typ, req = ent[0], ent[1]
             if req:
                 if k not in d:
-                    self.ctx.violation("accepted:required-missing" if merged else "accepted:required-removed",
+                    self.ctx.violation(self.merged_key(cls) if merged else "accepted:required-removed",
                                        "%s of %s accepted although required %r is absent afterwards" % (how, name, k), rec)
                 elif typ is not bool and any(d[k] is e or (not isinstance(d[k], bool) and d[k] == e and type(d[k]) is type(e)) for e in EMPTY):
                     self.ctx.violation("accepted:required-empty" if d[k] == [""] else "accepted:required-blank",
@@ -866,6 +886,23 @@ class Run:
             self.rule_case("endsession", O + "session.EndSessionRequest", args, {}, o_end)
 
     # ------------------------------------------------------------ D. embedded signed objects
+    def token_variants(self, payload_msg, signer_iss):
+        """[(tag, token, genuine?)]: a signed object and its forgeries"""
+        good = payload_msg.to_jwt(key=self.kj.get_signing_key("RSA", signer_iss), algorithm="RS256")
+        ec = payload_msg.to_jwt(key=self.kj.get_signing_key("EC", signer_iss), algorithm="ES256")
+        h, p, s = good.split(".")
+        flipped = ".".join([h, p, ("A" if s[0] != "A" else "B") + s[1:]])
+        import base64
+        pj = json.loads(base64.urlsafe_b64decode(p + "=" * (-len(p) % 4)))
+        pj["sub"] = "mallory"
+        p2 = base64.urlsafe_b64encode(json.dumps(pj).encode()).decode().rstrip("=")
+        swapped = ".".join([h, p2, s])
+        foreign = payload_msg.to_jwt(key=self.other.get_signing_key("RSA", ""), algorithm="RS256")
+        none = payload_msg.to_jwt(key=[], algorithm="none")
+        return [("valid-RS256", good, True), ("valid-ES256", ec, True), ("signature-altered", flipped, False),
+                ("payload-altered", swapped, False), ("foreign-key", foreign, False), ("alg-none", none, False),
+                ("not-a-jwt", "aaa.bbb.ccc", False)]
+
     def signed_objects(self):
         from idpyoidc.message import Message
         from idpyoidc.message.oidc import AccessTokenResponse, AuthorizationRequest, IdToken, MessageWithIdToken
@@ -874,21 +911,7 @@ class Run:
         now = int(time.time())
         iss = "https://op.example"
 
-        def variants(payload_msg, signer_iss):
-            good = payload_msg.to_jwt(key=self.kj.get_signing_key("RSA", signer_iss), algorithm="RS256")
-            ec = payload_msg.to_jwt(key=self.kj.get_signing_key("EC", signer_iss), algorithm="ES256")
-            h, p, s = good.split(".")
-            flipped = ".".join([h, p, ("A" if s[0] != "A" else "B") + s[1:]])
-            import base64
-            pj = json.loads(base64.urlsafe_b64decode(p + "=" * (-len(p) % 4)))
-            pj["sub"] = "mallory"
-            p2 = base64.urlsafe_b64encode(json.dumps(pj).encode()).decode().rstrip("=")
-            swapped = ".".join([h, p2, s])
-            foreign = payload_msg.to_jwt(key=self.other.get_signing_key("RSA", ""), algorithm="RS256")
-            none = payload_msg.to_jwt(key=[], algorithm="none")
-            return [("valid-RS256", good, True), ("valid-ES256", ec, True), ("signature-altered", flipped, False),
-                    ("payload-altered", swapped, False), ("foreign-key", foreign, False), ("alg-none", none, False),
-                    ("not-a-jwt", "aaa.bbb.ccc", False)]
+        variants = self.token_variants
         idt = IdToken(iss=iss, sub="s", aud=["c"], exp=now + 600, iat=now)
         lt = LogoutToken(iss=iss, sub="s", aud=["c"], iat=now, jti="j", events={BACK_CHANNEL_LOGOUT_EVENT: {}})
         ro = Message(response_type="code", client_id="c", scope="openid", redirect_uri="https://rp/cb")
@@ -924,12 +947,127 @@ class Run:
         if out[0] == "accepted":
             self.schema_oracle("oidc.AuthorizationRequest", AuthorizationRequest, m, rec, "verify() with a request object", merged=True)
 
+    # ------------------------------------------------------------ E. request objects: the message as it stands afterwards
+    RO_VALUES = {"response_type": "code", "client_id": "c", "scope": "openid", "redirect_uri": "https://rp/cb",
+                 "state": "s", "nonce": "n"}
+    REQUEST_RULES = {"idpyoidc.message.oauth2.JWTSecuredAuthorizationRequest.verify": "jar",
+                     "idpyoidc.message.oauth2.PushedAuthorizationRequest.verify": "par"}
+    RO_CLASS = "idpyoidc.message.oauth2.AuthorizationRequest"
+
+    @staticmethod
+    def coq_msg_obj(d):
+        """a canonical message whose values may be nested message objects (the verified request object)"""
+        def val(v):
+            if isinstance(v, dict) and set(v) == {"__msg__", "d"}:
+                return "(VObj %s)" % coq_msg(v["d"])
+            return coq_pyval(v)
+        return coq_list(["(%s, %s)" % (coq_str(k), val(v)) for k, v in d.items()], "(pystr * pyval)")
+
+    def request_objects(self):
+        """every class (introspection) that declares a `request` parameter x outer request {complete, each
+        required parameter removed, only client_id} x validly signed request object {complete, each required
+        parameter omitted, only an optional parameter, empty} + without request / with request_uri.  Oracle:
+        the schema oracle on the message as it stands after an accepting verify(); the verified object is
+        the signed one.  Correspondence (the two oauth2 overrides with a model): Model/Msg.v jar_verify /
+        par_verify."""
+        from idpyoidc.message import Message
+        ctx = self.ctx
+        n_sig = 0
+        for name, cls in self.classes:
+            ent = cls.c_param.get("request")
+            if ent is None or tier1(ent) != "str":
+                continue
+            ctx.count("request-object:classes")
+            vf = cls.verify
+            rule = self.REQUEST_RULES.get("%s.%s" % (getattr(vf, "__module__", "?"), getattr(vf, "__qualname__", "?")))
+            req = [k for k, e in cls.c_param.items() if e[1] and k != "*"]
+            full = {k: self.RO_VALUES.get(k, C.plain_value(cls.c_param[k])) for k in req}
+            full.setdefault("client_id", "c")
+            opt = {"state": "s"} if "state" in cls.c_param else {}
+            outers = [("complete", dict(full, **opt))] + [("without:" + r, {k: v for k, v in dict(full, **opt).items() if k != r}) for r in req] \
+                + [("only-client_id", {"client_id": "c"})]
+            objects = [("complete", dict(full, **opt))] + [("omits:" + r, {k: v for k, v in dict(full, **opt).items() if k != r}) for r in req] \
+                + [("only-optional", dict(opt) or {"x_other": "v"}), ("omits-all-required", {k: v for k, v in dict(full, **opt).items() if k not in req} or {"x_other": "v"})]
+            cells = [(o, ro) for o in outers for ro in objects] + [(o, None) for o in outers] + [(("request_uri", dict(outers[0][1], request_uri="https://rp/ro")), None)]
+            # a complete request with a complete object and its forgeries: accepted only with a valid signature
+            # (oidc.AuthorizationRequest itself is a row of the signed-object matrix above)
+            if name != "idpyoidc.message.oidc.AuthorizationRequest":
+                for tag, tok, genuine in self.token_variants(Message(**copy.deepcopy(objects[0][1])), "c"):
+                    b = attempt(lambda: cls(**dict(copy.deepcopy(outers[0][1]), request=tok)))
+                    if b[0] == "exc":
+                        ctx.count("request-object:not-constructible")
+                        continue
+                    out = self.class_verify(b[1], keyjar=self.kj)
+                    rec = {"class": name, "embedded": "request", "variant": tag, "outer_args": outers[0][1],
+                           "object_claims": objects[0][1]}
+                    ctx.case_seen(rec, out[0] == "accepted")
+                    ctx.count("signed:%s:%s" % (tag, out[0]))
+                    if out[0] == "accepted" and not genuine:
+                        # alg none: accepted by every one of these classes on the unchanged tree (recorded findings
+                        # signed-object:alg-none:request:<module.Class>; same root cause as the oidc.AuthorizationRequest
+                        # row: Message.from_jwt checks no signature for alg none unless allowed algorithms are passed)
+                        ctx.violation("signed-object:%s:request:%s" % (tag, name.replace("idpyoidc.message.", "")),
+                                      "%s.verify(keyjar=...) accepted a request object: %s" % (name, tag), rec)
+                    if out[0] == "accepted":
+                        self.schema_oracle(name, cls, b[1], rec, "verify() with a request object", merged=True)
+            for (otag, outer), obj in cells:
+                args = dict(outer)
+                payload = None
+                if obj is not None:
+                    n_sig += 1
+                    kt, alg = (("RSA", "RS256"), ("EC", "ES256"))[n_sig % 2]
+                    payload = obj[1]
+                    args["request"] = Message(**copy.deepcopy(payload)).to_jwt(key=self.kj.get_signing_key(kt, "c"), algorithm=alg)
+                b = attempt(lambda: cls(**copy.deepcopy(args)))
+                rec = {"class": name, "outer": otag, "request_object": obj[0] if obj else None,
+                       "outer_args": {k: v for k, v in outer.items()}, "object_claims": payload}
+                if b[0] == "exc":
+                    ctx.count("request-object:not-constructible")
+                    continue
+                m = b[1]
+                before = canon(dict(m._dict))
+                out = self.class_verify(m, keyjar=self.kj)
+                after = canon(dict(m._dict))
+                ctx.case_seen(rec, out[0] == "accepted")
+                ctx.count("request-object:%s:%s" % ("with-object" if obj else "no-object", out[0]))
+                if out[0] == "accepted":
+                    # the class's own rule (RFC 9101): a JWT-secured request carries `request` or `request_uri`
+                    if rule == "jar" and "request" not in before and "request_uri" not in before:
+                        ctx.violation("rules:" + cls.__name__, "verify() of %s accepted %r: neither request nor request_uri"
+                                      % (name, before), rec)
+                    self.schema_oracle(name, cls, m, rec, "verify() with a request object (%s)" % obj[0] if obj else "verify()",
+                                       merged=obj is not None)
+                    vr = after.get("__verified_request")
+                    if obj is not None and vr is not None and isinstance(vr, dict) and "d" in vr:
+                        got = {k: (v if not isinstance(v, list) else " ".join(map(str, v))) for k, v in vr["d"].items()}
+                        want = {k: (v if not isinstance(v, list) else " ".join(map(str, v))) for k, v in payload.items()}
+                        if got != want:
+                            ctx.violation("request-object:verified-content", "verify() of %s stores %r as the verified request "
+                                          "object, the signed object says %r" % (name, vr["d"], payload), rec)
+                if rule is None:
+                    continue
+                # the same cell for the model
+                if out[0] == "accepted":
+                    res = "(Ok %s)" % self.coq_msg_obj(after)
+                elif out[1] in C.EXC:
+                    res = "(Err %s)" % C.EXC[out[1]]
+                else:
+                    ctx.count("skipped-model:exception-class:" + out[1])
+                    continue
+                if not (pure_json(before) and pure_json(after)):
+                    ctx.unmodelled += 1
+                    continue
+                inp = "(%s, %s, %s, %s, %s)" % (coq_str(rule), coq_str(name), coq_str(self.RO_CLASS),
+                                                coq_opt(payload, coq_msg, "msg") if payload is not None else "(@None msg)", coq_msg(before))
+                self.cases["request"].append(("(%s, %s)" % (inp, res), inp, rec))
+
     def run_model(self):
         ctx = self.ctx
         for kind, ty, chk, fn in (("verify", "pystr * msg * res unit", "chk_verify", "m_verify"),
                                   ("construct", "pystr * msg * res msg", "chk_construct", "m_construct"),
                                   ("authz", "pystr * option pystr * msg * res msg", "chk_authz", "m_authz"),
-                                  ("rules", "rules_case * res (bool * msg)", "chk_rules", "m_rules")):
+                                  ("rules", "rules_case * res (bool * msg)", "chk_rules", "m_rules"),
+                                  ("request", "request_case * res msg", "chk_request", "m_request")):
             cs = self.cases[kind]
             cap = (1200 if kind != "rules" else 4000) if ctx.quick else 10 ** 9
             if len(cs) > cap:
@@ -947,6 +1085,7 @@ def run(ctx):
     r.authz_table()
     r.rules_tables()
     r.signed_objects()
+    r.request_objects()
     r.run_model()
     ctx.count("classes-whose-verify-accepted-the-base-message", len(r.accepting))
 
